@@ -17,6 +17,7 @@ import (
 	"github.com/ipld/go-storethehash/store/freelist"
 	"github.com/ipld/go-storethehash/store/primary"
 	"github.com/ipld/go-storethehash/store/types"
+	"github.com/ipld/go-storethehash/store/verifhook"
 	"github.com/multiformats/go-multihash"
 )
 
@@ -112,6 +113,7 @@ func Open(path string, freeList *freelist.FreeList, fileCache *filecache.FileCac
 		if err = writeHeader(headerPath, header); err != nil {
 			return nil, err
 		}
+		verifhook.At("primary.open.header_written")
 	} else {
 		if err != nil {
 			return nil, err
@@ -136,6 +138,7 @@ func Open(path string, freeList *freelist.FreeList, fileCache *filecache.FileCac
 	if err != nil {
 		return nil, err
 	}
+	verifhook.At("primary.open.file_opened")
 
 	mp := &MultihashPrimary{
 		basePath:    path,
@@ -217,6 +220,7 @@ func (cp *MultihashPrimary) Get(blk types.Block) ([]byte, []byte, error) {
 		// Found in a pool. The value may be nil if a nil value was stored.
 		return key, value, nil
 	}
+	verifhook.At("primary.get.cache_checked")
 
 	localPos, fileNum := localizePrimaryPos(blk.Offset, cp.maxFileSize)
 
@@ -301,9 +305,11 @@ func (cp *MultihashPrimary) flushBlock(key []byte, value []byte) (types.Work, er
 		if err != nil {
 			return 0, fmt.Errorf("cannot open new primary file %s: %w", primaryPath, err)
 		}
+		verifhook.At("primary.flush.roll.new_opened")
 		if err = cp.writer.Flush(); err != nil {
 			return 0, fmt.Errorf("cannot write to primary file %s: %w", cp.file.Name(), err)
 		}
+		verifhook.At("primary.flush.roll.old_flushed")
 
 		cp.file.Close()
 		cp.writer.Reset(file)
@@ -372,6 +378,7 @@ func (cp *MultihashPrimary) Flush() (types.Work, error) {
 	cp.nextPool = newBlockPool()
 	cp.outstandingWork = 0
 	cp.poolLk.Unlock()
+	verifhook.At("primary.flush.swapped")
 
 	// The pool lock is released allowing Put to write to nextPool. The
 	// flushLock is still held, preventing concurrent flushes from changing the
@@ -389,6 +396,7 @@ func (cp *MultihashPrimary) Flush() (types.Work, error) {
 	if err != nil {
 		return 0, fmt.Errorf("cannot flush data to primary file %s: %w", cp.file.Name(), err)
 	}
+	verifhook.At("primary.flush.written")
 
 	return work, nil
 }
@@ -413,6 +421,7 @@ func (mp *MultihashPrimary) Close() error {
 		mp.gc.close()
 	}
 	mp.gcMutex.Unlock()
+	verifhook.At("primary.close.gc_stopped")
 
 	mp.fileCache.Clear()
 
